@@ -9,9 +9,19 @@
    k = 0, 1, 2, ... until a run passes without refusal, so every allocation site that the operation
    reaches in that state is refused once; the recorded op file is then replayed on the model.
  * oracle: the statement of C18 in plain Python over sets (class Judge).
+ * long answers: the capacity of the temporary PDU stores of rtr_sync is MEASURED on the tree under test
+   (first request of a one-PDU answer); answers with capacity+1 ... 2*capacity+1 PDUs of one kind (and with
+   L+1 PDUs for the integer literals L of the sources, vlib.source_literals) are run with the refused request
+   concentrated on the requests that grow an existing block (found by an undisturbed counting run).
+ * block accounting: the injected allocator keeps a table of live and of returned blocks; a block returned
+   twice (trace token D) or a block it never handed out (A) is reported, not handed to the real free().
+ * two threads: `pair` lines run two table operations in two threads under a deterministic schedule driven
+   from the allocator hook (harness/alloc_harness.c, sched_hook); the oracle accepts the return codes and
+   contents of either serial order and checks the accounting (failure-free runs are part of C18).
 """
 import collections
 import os
+import time
 import re
 import subprocess
 import sys
@@ -29,12 +39,14 @@ THEOREMS = [
     "Rtr.C18.fail_contained_queries", "Rtr.C18.fail_contained_spki", "Rtr.C18.hashlin_grow_optional",
     "Rtr.C18.fail_keeps_invariant", "Rtr.C18.alloc_count", "Rtr.C18.balanced", "Rtr.C18.configured_free_only",
     "Rtr.C18.sync_fail_clean", "Rtr.C18.sync_no_leak",
+    "Rtr.C18.store_released_exactly_once", "Rtr.C18.sync_store_fail_exact",
     "Rtr.C18.F15_unfixed_violates", "Rtr.C18.F16a_unfixed_crashes", "Rtr.C18.F16c_unfixed_violates",
     "Rtr.C18.F16d_unfixed_leaks",
 ]
 MODULES = ["RtrProps.C18"]
 HARNESS_EXCLUDE = ["rtrlib/spki/hashtable/ht-spkitable.c"]
 NT = 4
+CAPS = {}                  # capacity step of the temporary PDU stores, measured on the tree under test (probe_caps)
 ME = 0                     # the synchronising socket
 SESSION, SERIAL0 = 7, 5    # what the harness puts into socket 0 before every sync
 
@@ -131,6 +143,10 @@ def canon(reply):
     if sp is None:
         return reply
     res, toks, live = sp
+    if " sched=" in res:
+        # two threads: the interleaving of the two allocator traces and the schedule class are not part of the
+        # correspondence; return codes and the number of live blocks are
+        return "%s ; ; live=%d" % (res.split(" sched=")[0], live)
     out = []
     for t in toks:
         m = _RT.match(t)
@@ -169,8 +185,20 @@ def _krec(w):
         return None
 
 
+_DECODED = {}
+
+
 def decode_items(hexstream):
     """the payload PDUs of a well-formed answer: ('p', add, rec) / ('k', add, rec), and the serial of EOD"""
+    hit = _DECODED.get(hexstream)
+    if hit is None:
+        if len(_DECODED) > 64:
+            _DECODED.clear()
+        hit = _DECODED[hexstream] = _decode_items(hexstream)
+    return hit
+
+
+def _decode_items(hexstream):
     pdus, left = rtrpdu.decode_stream(bytes.fromhex(hexstream))
     items = []
     sn = None
@@ -194,8 +222,12 @@ class Judge:
     """consumes (op line, implementation reply) pairs of one history in order and evaluates the
     statement of C18; self.fails = [(clause, index, message)]"""
 
-    def __init__(self, sz):
+    def __init__(self, sz, caps=None):
         self.sz = sz
+        self.caps = caps if caps is not None else CAPS     # measured capacity of the PDU stores (elements)
+        self.pair_order = {}         # index of a pair line -> "AB" | "BA": the serial order the outcome agrees with
+        self.pairs = collections.Counter()      # class of the pair / schedule -> runs
+        self.first_empty = {4: {"refused": set(), "nreq": 0}, 6: {"refused": set(), "nreq": 0}}
         self.P = [set() for _ in range(NT)]
         self.Pcb = [True] * NT
         self.K = [None] * NT
@@ -234,6 +266,11 @@ class Judge:
         z = self.sz
         if m:
             o, n = int(m.group(1)), int(m.group(2))
+            if op == "sync":
+                for name in ("pdu4", "pdu6", "pduk"):
+                    step = (self.caps.get(name) or 0) * z[name]
+                    if step and n - o == step and o % step == 0:
+                        return "store-%s-%s" % ("first" if o == 0 else "grow", name)
             kind = "shrink" if n < o else ("first" if o == 0 else "grow")
             return "realloc-" + kind
         n = int(t[1:-1])
@@ -268,8 +305,11 @@ class Judge:
         for t in toks:
             if t[0] == "X":
                 self.fail("foreign-free", "%s: a block of the configured allocator was released through libc free (%s)" % (cmd, t))
+            if t[0] == "D":
+                self.fail("double-free", "%s: block returned twice: a block of %s bytes that the configured allocator had already "
+                          "taken back reached its free/realloc again" % (cmd, t[1:]))
             if t[0] == "A":
-                self.fail("alien-free", "%s: a block that did not come from the configured allocator reached its free/realloc" % cmd)
+                self.fail("alien-free", "%s: foreign block: a block that did not come from the configured allocator reached its free/realloc" % cmd)
         ref = refused_tokens(toks)
         refused = bool(ref)
         absorb = refused and self.absorbable(cmd, toks, ref[0][0])
@@ -313,7 +353,14 @@ class Judge:
                 return
             S = self.P[t]
             if cmd == "padd":
+                empty_family = not any(x[0] == rec[0] for x in S)
                 outcome = judge(-2 if rec in S else 0, lambda: None, lambda: S.add(rec))
+                if empty_family and rec[0] in self.first_empty:
+                    fe = self.first_empty[rec[0]]
+                    if refused:
+                        fe["refused"].add(sum(1 for x in toks[:ref[0][0]] if x[0] in "MR"))
+                    else:
+                        fe["nreq"] = max(fe["nreq"], sum(1 for x in toks if x[0] in "MR"))
             else:
                 outcome = judge(0 if rec in S else -3, lambda: None, lambda: S.discard(rec))
         elif cmd == "psrcrm" and t is not None:
@@ -433,11 +480,91 @@ class Judge:
             outcome = "ok"
         elif cmd == "sync":
             outcome = self.judge_sync(w, res, rc, refused, absorb, ref)
+        elif cmd == "pair" and t is not None:
+            self.judge_pair(w, t, rw, res)
         if outcome is not None:
             if refused:
                 self.dist["%s/%s@%d/%s" % (cmd, self.site_name(cmd, toks, ref[0][0]), min(ref[0][0], 9), outcome)] += 1
             else:
                 self.dist["%s/-/%s" % (cmd, outcome)] += 1
+
+    # ---- two operations in two threads
+    @staticmethod
+    def parse_half(side):
+        if len(side) == 7 and side[0] in ("padd", "prm"):
+            rec = _prec(side[1:])
+            return ("P", side[0][1:], rec) if rec else None
+        if len(side) == 5 and side[0] in ("kadd", "krm"):
+            rec = _krec(side[1:])
+            return ("K", side[0][1:], rec) if rec else None
+        return None
+
+    def pair_class(self, t, a, b):
+        (ka, oa, ra), (kb, ob, rb) = a, b
+        name = "%s%s+%s%s" % (ka.lower(), oa, kb.lower(), ob)
+        if ka != kb:
+            return name + ":mixed:-"
+        if ka == "P":
+            S = self.P[t]
+            rel = "same-rec" if ra == rb else "same-prefix" if ra[:3] == rb[:3] else "other"
+            st = "rec-present" if ra in S else "node-present" if any(x[:3] == ra[:3] for x in S) else \
+                "node-absent" if any(x[0] == ra[0] for x in S) else "family-empty"
+        else:
+            S = self.K[t]
+            rel = "same-rec" if ra == rb else "same-key" if ra[:2] == rb[:2] else "other"
+            st = "present" if ra in S else "absent"
+        return "%s:%s:%s" % (name, rel, st)
+
+    def judge_pair(self, w, t, rw, res):
+        """the two calls ran concurrently; whatever the interleaving, their return codes and the contents
+        afterwards must be those of one of the two serial orders (the table functions are atomic)"""
+        if "|" not in w:
+            return
+        bar = w.index("|")
+        a, b = self.parse_half(w[3:bar]), self.parse_half(w[bar + 1:])
+        if a is None or b is None:
+            return
+        for x in (a, b):
+            if (x[0], t) in self.between or (x[0] == "K" and self.K[t] is None):
+                return
+        try:
+            got = [int(rw[0]), int(rw[1])]
+        except (ValueError, IndexError):
+            self.fail("answer", "no return codes in %r" % res[:80])
+            return
+        m = re.search(r"sched=(\w+)", res)
+        sched = m.group(1) if m else "?"
+        cls = self.pair_class(t, a, b)
+
+        def serial(first, second):
+            P = set(self.P[t])
+            K = set(self.K[t]) if self.K[t] is not None else None
+            rcs = []
+            for (kind, opn, rec) in (first, second):
+                S = P if kind == "P" else K
+                if opn == "add":
+                    rcs.append(-2 if rec in S else 0)
+                    S.add(rec)
+                else:
+                    rcs.append(0 if rec in S else -3)
+                    S.discard(rec)
+            return rcs, P, K
+        ab, Pab, Kab = serial(a, b)
+        ba, Pba, Kba = serial(b, a)
+        ba = [ba[1], ba[0]]
+        if got == ab:
+            order, newP, newK = "AB", Pab, Kab
+        elif got == ba:
+            order, newP, newK = "BA", Pba, Kba
+        else:
+            self.fail("pair", "two threads: '%s' returned %d and '%s' returned %d; run one after the other they return %s "
+                      "(first one first) or %s (second one first)" % (" ".join(w[3:bar]), got[0], " ".join(w[bar + 1:]), got[1], ab, ba))
+            order, newP, newK = "AB", Pab, Kab
+        self.P[t] = newP
+        if newK is not None:
+            self.K[t] = newK
+        self.pair_order[self.i] = order
+        self.pairs["%s %s-%s" % (cls, sched, order)] += 1
 
     def judge_sync(self, w, res, rc, refused, absorb, ref):
         reset = w[2] == "1"
@@ -498,17 +625,19 @@ class Judge:
     def observe(self, cmd, w, reply):
         t = _tab(w[1]) if len(w) > 1 else None
         if cmd == "live":
-            m = re.match(r"live=(-?\d+) foreign=(\d+) alien=(\d+)", reply)
+            m = re.match(r"live=(-?\d+) foreign=(\d+) alien=(\d+)(?: double=(\d+))?", reply)
             if not m:
                 return
             live, foreign, alien = int(m.group(1)), int(m.group(2)), int(m.group(3))
+            if m.group(4) and int(m.group(4)):
+                self.fail("double-free", "%s blocks were returned to the configured allocator twice" % m.group(4))
             nothing = all(not s for s in self.P) and all(k is None for k in self.K)
             if nothing and live != 0:
                 self.fail("balanced", "every table is freed but %d blocks of the configured allocator are still allocated" % live)
             if foreign:
                 self.fail("foreign-free", "%d blocks of the configured allocator were released through libc free" % foreign)
             if alien:
-                self.fail("alien-free", "%d blocks that did not come from the configured allocator reached its free" % alien)
+                self.fail("alien-free", "%d foreign blocks (not from the configured allocator) reached its free" % alien)
             # alloc_count: live blocks as a function of the tables
             if len(self.stats) == 2 * NT:
                 exp = 0
@@ -937,6 +1066,254 @@ def hist_sync(exe, sz, r, hid, maxk):
 
 
 # ------------------------------------------------------------------------------------------
+# long answers: more PDUs of one kind than a temporary store holds
+# ------------------------------------------------------------------------------------------
+
+def probe_caps(exe, sz):
+    """capacity step of the three temporary PDU stores of rtr_sync, measured: an answer with one PDU of every kind
+    makes the store loop allocate each store once (the first three requests of the call)"""
+    items = [("p4", True, (4, 0x0a000000, 8, 8, 65001, ME)), ("p6", True, (6, 0x20010db8 << 96, 32, 32, 65001, ME)),
+             ("k", True, (65001, 1, 2, ME))]
+    stream = rtrpdu.cache_response(1, SESSION) + b"".join(pdu_of(it) for it in items) + rtrpdu.eod(1, SESSION, 41)
+    ops = [setsizes_line(sz), "pnew - 0 0", "knew - 0 0", "sync - 0 " + stream.hex(), "pfree - 0", "kfree - 0"]
+    out, rc, err = vlib.run_lines(exe, ops)
+    if rc != 0 or len(out) < 4:
+        return None
+    sp = split_reply(out[3])
+    if sp is None:
+        return None
+    reqs = [t for t in sp[1] if t[0] in "MR"]
+    caps = {}
+    for name, tok in zip(("pdu4", "pdu6", "pduk"), reqs[:3]):
+        m = _RT.match(tok)
+        if not m or m.group(1) != "0" or int(m.group(2)) == 0 or int(m.group(2)) % sz[name]:
+            return None
+        caps[name] = int(m.group(2)) // sz[name]
+    return caps if len(caps) == 3 else None
+
+
+def long_items(r, spec):
+    """announcements of distinct records, `spec[kind]` of each kind, arrival order interleaved at random; every 16th
+    prefix announcement reuses the previous prefix with another origin (the array of an existing node grows)"""
+    seqs = {}
+    for kind, n in spec.items():
+        q = []
+        for i in range(n):
+            j = i - 1 if i % 16 == 15 else i
+            asn = 70000 + i if i % 16 == 15 else 65000 + i % 5
+            if kind == "p4":
+                q.append(("p4", True, (4, (10 << 24) | (j << 8), 24, r.choice([24, 25, 32]), asn, ME)))
+            elif kind == "p6":
+                q.append(("p6", True, (6, (0x20010db8 << 96) | (j << 64), 64, r.choice([64, 96, 128]), asn, ME)))
+            else:
+                q.append(("k", True, (65000 + i % 7, 1 + i, 0xabc000 + i, ME)))
+        seqs[kind] = q
+    items = []
+    while any(seqs.values()):
+        kinds = [k for k in seqs for _ in range(len(seqs[k]))]
+        items.append(seqs[r.choice(kinds)].pop(0))
+    return items
+
+
+def hist_sync_long(exe, sz, r, hid, spec, reset, extra):
+    """an answer with more PDUs of a kind than its store holds.  An undisturbed run counts the requests of the call; then
+    the k-th request is refused for: every request that GROWS an existing block (the store reallocations for element
+    capacity+1, 2*capacity+1, ...; node arrays), every request up to the first malloc and a little beyond (the store
+    phase), the last one, and `extra` random others - each time from the same tables"""
+    s = Session(exe, sz, hid, "sync-long")
+    pcb, kcb = r.choice([0, 1]), r.choice([0, 1])
+    pre_p = [(4, (192 << 24) | (168 << 16) | (i << 8), 24, 24, 64500 + i, src) for i, src in enumerate([ME, ME, 1, 2])]
+    pre_k = [(64500 + i, 0xf0 + i, 0xe0 + i, src) for i, src in enumerate([ME, 1])]
+    items = long_items(r, spec)
+    if not reset:
+        # an incremental update also withdraws records this socket owns
+        items.insert(r.randrange(0, len(items) + 1), ("p4", False, pre_p[0]))
+        items.insert(r.randrange(0, len(items) + 1), ("k", False, pre_k[0]))
+    stream = rtrpdu.cache_response(1, SESSION) + b"".join(pdu_of(it) for it in items) + rtrpdu.eod(1, SESSION, 40 + hid % 50)
+    line = "sync {F} %d %s" % (1 if reset else 0, stream.hex())
+
+    def setup():
+        s.send("pfree - 0")
+        if s.j.K[0] is not None:
+            s.send("kfree - 0")
+        s.send("pnew - 0 %d" % pcb)
+        s.send("knew - 0 %d" % kcb)
+        for rec in pre_p:
+            s.send("padd - 0 " + pfxgen.fmt_rec_args(rec))
+        for rec in pre_k:
+            s.send("kadd - 0 " + spkigen.rec_args(rec))
+        s.send("plog 0")
+        s.send("klog 0")
+
+    def look():
+        s.send("pdump 0")
+        s.send("kdump 0")
+        for t in range(NT):
+            s.send("pstat %d" % t)
+            s.send("kstat %d" % t)
+        s.send("live")
+
+    setup()
+    rep = s.send(line.replace("{F}", "-"))
+    look()
+    sp = split_reply(rep) if rep else None
+    if sp is None:
+        return s.finish()
+    reqs = [t for t in sp[1] if t[0] in "MR"]
+    grow = []
+    for i, t in enumerate(reqs):
+        m = _RT.match(t)
+        if m and 0 < int(m.group(1)) < int(m.group(2)):
+            grow.append(i)
+    firstm = next((i for i, t in enumerate(reqs) if t[0] == "M"), len(reqs))
+    ks = set(grow) | set(range(0, min(firstm + 3, len(reqs)))) | {len(reqs) - 1}
+    ks |= set(r.sample(range(len(reqs)), min(extra, len(reqs))))
+    for k in sorted(x for x in ks if x >= 0):
+        if s.crashed:
+            break
+        setup()
+        s.send(line.replace("{F}", str(k)))
+        look()
+    return s.finish()
+
+
+# ------------------------------------------------------------------------------------------
+# two threads: pairs of identical / related operations under the allocator-driven schedule
+# ------------------------------------------------------------------------------------------
+
+def pair_cases_pfx(fam):
+    if fam == 4:
+        X = (4, 0x0a000000, 8, 8, 65001, 1)
+        Y = (4, 0x0a800000, 9, 24, 65001, 1)          # below X
+        Z = (4, 0xc0a80000, 16, 16, 65009, 2)
+    else:
+        X = (6, 0x20010db8 << 96, 32, 48, 65001, 1)
+        Y = (6, (0x20010db8 << 96) | (1 << 95), 33, 64, 65001, 1)
+        Z = (6, 0xfd00 << 112, 16, 16, 65009, 2)
+    X2 = X[:3] + (X[3] + 1, 65002, 2)
+    X3 = X[:3] + (X[3] + 2, 65003, 3)
+    return X, X2, X3, Y, Z
+
+
+def pair_plan(r, quick):
+    """(kind, pre-existing records, op A, op B): identical / related operations on small tables where the prefix node
+    (the key) is / is not yet present"""
+    plan = []
+    for fam in (4, 6):
+        X, X2, X3, Y, Z = pair_cases_pfx(fam)
+        full = [
+            ([], ("padd", X), ("padd", X)),              # same record, family empty
+            ([Z], ("padd", X), ("padd", X)),             # same record, prefix node absent
+            ([Z], ("padd", X), ("padd", X2)),            # same prefix, other origin, node absent
+            ([X, X2], ("prm", X), ("prm", X)),           # remove / remove, node keeps an element (shrinking realloc)
+            ([Z], ("padd", X), ("prm", X)),              # add / remove of an absent record
+            ([X3], ("padd", X), ("padd", X)),            # same record, node present
+            ([X3], ("padd", X), ("padd", X2)),           # same prefix, node present
+            ([X], ("padd", X), ("padd", X)),             # record present: both duplicates
+            ([X], ("padd", X2), ("prm", X)),             # add / remove on the same node
+            ([X], ("prm", X), ("padd", X)),              # remove / add of the same record
+            ([X], ("prm", X), ("prm", X)),               # remove / remove of the node's only element
+            ([Z], ("padd", X), ("padd", Y)),             # related prefixes (parent / child)
+            ([], ("prm", X), ("prm", X)),                # nothing there
+        ]
+        for c in (full if fam == 4 or not quick else full[:5]):
+            plan.append(("P",) + c)
+    K1, K2, K3 = (65001, 0xaa, 0xbb, 1), (65001, 0xab, 0xbc, 1), (65001, 0xac, 0xbd, 2)
+    plan += [
+        ("K", [], ("kadd", K1), ("kadd", K1)),
+        ("K", [K1], ("kadd", K1), ("kadd", K1)),
+        ("K", [K1], ("kadd", K1), ("krm", K1)),
+        ("K", [], ("kadd", K1), ("krm", K1)),
+        ("K", [K1], ("krm", K1), ("krm", K1)),
+        ("K", [K1], ("kadd", K2), ("kadd", K3)),
+        ("K", [K1, K2], ("krm", K1), ("kadd", K1)),
+    ]
+    if not quick:
+        pu, ku = pfxgen.Universe(r), spkigen.Universe(r, small=True)
+        for _ in range(120):
+            if r.random() < 0.7:
+                pre = [pu.rec(r) for _ in range(r.randrange(0, 5))]
+                a = r.choice(pre) if pre and r.random() < 0.6 else pu.rec(r)
+                b = a if r.random() < 0.5 else (a[:3] + (a[3], r.choice(pfxgen.ASNS), r.choice(pfxgen.SRCS)) if r.random() < 0.5 else pu.rec(r))
+                plan.append(("P", pre, (r.choice(["padd", "padd", "prm"]), a), (r.choice(["padd", "padd", "prm"]), b)))
+            else:
+                pre = [ku.rec(r) for _ in range(r.randrange(0, 5))]
+                a = r.choice(pre) if pre and r.random() < 0.6 else ku.rec(r)
+                b = a if r.random() < 0.6 else ku.rec(r)
+                plan.append(("K", pre, (r.choice(["kadd", "kadd", "krm"]), a), (r.choice(["kadd", "kadd", "krm"]), b)))
+    return plan
+
+
+def hist_pairs(exe, sz, r, hid, cases):
+    s = Session(exe, sz, hid, "pair")
+    s.send("pnew - 0 1")
+    s.send("knew - 0 1")
+
+    def fmt(op):
+        return "%s %s" % (op[0], pfxgen.fmt_rec_args(op[1]) if op[0][0] == "p" else spkigen.rec_args(op[1]))
+    for kind, pre, a, b in cases:
+        if s.crashed:
+            break
+        seen = []
+        for rec in pre:
+            if rec not in seen:
+                seen.append(rec)
+                s.send(("padd - 0 " + pfxgen.fmt_rec_args(rec)) if kind == "P" else ("kadd - 0 " + spkigen.rec_args(rec)))
+        s.send("pair - 0 %s | %s" % (fmt(a), fmt(b)))
+        s.observe(ptabs=(0,) if kind == "P" else (), ktabs=(0,) if kind == "K" else (), full=True)
+        # back to empty tables: everything a case allocated must be gone before the next one
+        if kind == "P":
+            s.send("pfree - 0")
+            s.send("pnew - 0 1")
+        else:
+            s.send("kfree - 0")
+            s.send("knew - 0 1")
+        for t in range(NT):
+            s.send("pstat %d" % t)
+            s.send("kstat %d" % t)
+        s.send("live")
+    return s.finish()
+
+
+def hist_firstadd(exe, sz, r, hid):
+    """the first record of an address family (the root slot is empty), every request of that add refused in turn; after
+    every attempt the table is enumerated, counted and USED (add / validate / remove / remove-by-source / enumerate in
+    the same family), so a root slot left pointing at a released node shows"""
+    s = Session(exe, sz, hid, "first-add")
+    u = pfxgen.Universe(r)
+    s.send("pnew - 0 %d" % r.choice([0, 1]))
+    for other_family_filled in (False, True):
+        for fam in (4, 6):
+            rec = other = None
+            for _ in range(400):
+                x = u.rec(r)
+                if x[0] == fam and rec is None:
+                    rec = x
+                elif x[0] == fam and other is None and x[:3] != rec[:3]:
+                    other = x
+                if rec and other:
+                    break
+            if rec is None or other is None:
+                continue
+            if other_family_filled:
+                X, X2, X3, Y, Z = pair_cases_pfx(6 if fam == 4 else 4)
+                s.send("padd - 0 " + pfxgen.fmt_rec_args(Z))
+
+            def use():
+                s.observe(ptabs=(0,), ktabs=(), full=True)
+                s.send("padd - 0 " + pfxgen.fmt_rec_args(other))
+                s.send("pval - 0 %d %s %d %d" % (other[0], pfxgen.hexaddr(other[0], other[1]), other[2], other[4]))
+                s.send("pdump 0")
+                s.send("prm - 0 " + pfxgen.fmt_rec_args(other))
+                s.send("psrcrm - 0 %d" % other[5])
+                s.observe(ptabs=(0,), ktabs=(), full=True)
+            s.sweep("padd {F} 0 " + pfxgen.fmt_rec_args(rec), r, "sweep", after=use)
+            s.send("pfree - 0")
+            s.send("pnew - 0 1")
+    return s.finish()
+
+
+# ------------------------------------------------------------------------------------------
 # replay of a recorded op file (corpus, minimisation, model side)
 # ------------------------------------------------------------------------------------------
 
@@ -1004,10 +1381,14 @@ def run(pid, tier):
     r = vlib.rng(pid)
     quick = tier == "quick"
     sessions = []            # finished Session-like records: (hid, kind, ops, out, crashed, stderr, fails, dist)
+    caps = probe_caps(exe, sz)
+    CAPS.clear()
+    CAPS.update(caps or {})
 
     def record(hid, kind, ops, out, crashed, err, judge):
         sessions.append({"hid": hid, "kind": kind, "ops": ops, "out": out, "crashed": crashed, "err": err,
-                         "fails": list(judge.fails), "dist": judge.dist})
+                         "fails": list(judge.fails), "dist": judge.dist, "pair_order": dict(judge.pair_order),
+                         "pairs": judge.pairs, "first_empty": judge.first_empty})
 
     # corpus first
     corpus = load_corpus()
@@ -1021,6 +1402,54 @@ def run(pid, tier):
     plan += [("pfx", 250 * mult), ("spki", 200 * mult), ("spki-big", 30 * mult), ("sync", 350 * mult)]
     hid = 0
     nbad = collections.Counter()
+    phase = collections.OrderedDict()
+    t_phase = time.time()
+
+    def lap(name):
+        nonlocal t_phase
+        phase[name] = round(phase.get(name, 0) + time.time() - t_phase, 1)
+        t_phase = time.time()
+
+    # ---- deterministic classes (every tier): first add into an empty family, long answers, two-thread pairs
+    def run_special(kind, fn):
+        nonlocal hid
+        hid += 1
+        if nbad[kind] >= 4:
+            return
+        s = fn(hid)
+        record(hid, kind, s.ops, s.out, s.crashed, s.h.stderr_text() if s.crashed else "", s.j)
+        if s.crashed or s.j.fails:
+            nbad[kind] += 1
+
+    for _ in range(1 if quick else 10):
+        run_special("first-add", lambda h: hist_firstadd(exe, sz, r, h))
+    lap("first-add")
+    long_specs = []
+    if caps:
+        c4, c6, ck = caps["pdu4"], caps["pdu6"], caps["pduk"]
+        lim = 1200                                        # PDUs of one kind in one answer
+
+        def upto(c):                                      # capacity + 1 ... 2 * capacity + 1
+            return min(lim, c + 1 + r.randrange(0, c + 1))
+        lits = [l for l in vlib.source_literals()["ints"] if 32 < l <= 1100]
+        second = max([2 * c4] + [l for l in lits if 2 * c4 <= l <= 300])   # past the second growth step and every literal near it
+        long_specs = [({"p4": upto(c4)}, False, 5), ({"p6": upto(c6)}, False, 4), ({"k": upto(ck)}, False, 4),
+                      ({"p4": min(lim, c4 + 1), "p6": min(lim, c6 + 1), "k": min(lim, ck + 1)}, True, 5),
+                      ({"p4": min(lim, second + 1)}, False, 3), ({"k": min(lim, 2 * ck + 1)}, True, 3)]
+        if not quick:
+            for l in lits:                                # a count the sources spell out is a candidate boundary
+                long_specs.append(({r.choice(["p4", "p6", "k"]): l + 1}, r.random() < 0.5, 12))
+            for _ in range(20):
+                long_specs.append(({"p4": r.randrange(1, 2 * c4 + 2), "p6": r.randrange(1, 2 * c6 + 2), "k": r.randrange(1, 2 * ck + 2)},
+                                   r.random() < 0.5, 30))
+    for spec, reset, extra in long_specs:
+        run_special("sync-long", lambda h: hist_sync_long(exe, sz, r, h, spec, reset, extra))
+    lap("sync-long")
+    pplan = pair_plan(r, quick)
+    for i in range(0, len(pplan), 5):
+        run_special("pair", lambda h: hist_pairs(exe, sz, r, h, pplan[i:i + 5]))
+    lap("pair")
+
     for kind, count in plan:
         for _ in range(count):
             hid += 1
@@ -1037,6 +1466,7 @@ def run(pid, tier):
             record(hid, kind, s.ops, s.out, s.crashed, s.h.stderr_text() if s.crashed else "", s.j)
             if s.crashed or s.j.fails:
                 nbad[kind] += 1
+        lap(kind)
 
     # ---- model side: replay every recorded op file on the driver, compare
     divergences = []
@@ -1044,10 +1474,14 @@ def run(pid, tier):
     good = 0
     B = 1          # one driver process per history: both sides start from the initial state
     todo = [x for x in sessions if not x["crashed"]]
-    for b0 in range(0, len(todo), B):
+    import concurrent.futures
+    pool = concurrent.futures.ThreadPoolExecutor(max_workers=4)
+    futs = [pool.submit(vlib.run_lines, drv, [l for x in todo[b0:b0 + B] for l in model_ops(x)], timeout=600)
+            for b0 in range(0, len(todo), B)]
+    for bi, b0 in enumerate(range(0, len(todo), B)):
         batch = todo[b0:b0 + B]
-        ops = [l for x in batch for l in x["ops"]]
-        model, mrc, merr = vlib.run_lines(drv, ops, timeout=600)
+        ops = [l for x in batch for l in model_ops(x)]
+        model, mrc, merr = futs[bi].result()
         if mrc != 0 or len(model) != len(ops):
             rep.build_log = "model driver failed: rc=%s lines %d/%d %s" % (mrc, len(model), len(ops), merr[-500:])
             vlib.proof_failure(rep, "model driver (allocdriver) crashed")
@@ -1059,12 +1493,18 @@ def run(pid, tier):
             pos += n
             nlines += n
             io = [canon(l) for l in x["out"]]
+            for i, order in x["pair_order"].items():
+                if order == "BA" and i < len(io):     # the model ran the second operation first: its codes come in that order
+                    io[i] = swap_codes(io[i])
             mo = [canon(l) for l in mo]
             d = vlib.first_divergence(io, mo)
             if d is not None:
                 divergences.append((x, d, x["out"][d] if d < len(x["out"]) else "<eof>", mo[d] if d < len(mo) else "<eof>"))
             else:
                 good += 1
+
+    lap("model-replay")
+    rep.cov["phase_seconds"] = dict(phase)
 
     # ---- evidence
     dist = collections.Counter()
@@ -1077,7 +1517,14 @@ def run(pid, tier):
         op, site, outc = k.split("/")
         if site != "-":
             sites["%s %s -> %s" % (op, site.split("@")[0], outc)] += v
-    distinct = len([k for k in dist if "/-/" not in k])
+    pairs = collections.Counter()
+    first_empty = {4: {"refused": set(), "nreq": 0}, 6: {"refused": set(), "nreq": 0}}
+    for x in sessions:
+        pairs.update(x["pairs"])
+        for fam in (4, 6):
+            first_empty[fam]["refused"] |= x["first_empty"][fam]["refused"]
+            first_empty[fam]["nreq"] = max(first_empty[fam]["nreq"], x["first_empty"][fam]["nreq"])
+    distinct = len([k for k in dist if "/-/" not in k]) + len(pairs)
     rep.cov.update({
         "evaluations": nlines,
         "distinct_nontrivial": distinct,
@@ -1089,13 +1536,18 @@ def run(pid, tier):
                 "distinct (operation, refused allocation site, position, outcome) classes observed on the implementation",
         "traces_validated_against_impl": good,
         "distribution": {"histories": dict(kinds), "operations_run_with_a_refused_request": refused_runs,
+                         "pdu_store_capacity_measured": caps,
+                         "two_thread_pairs (class schedule-serial order)": dict(sorted(pairs.items())),
+                         "first_add_into_empty_family": {"v%d" % f: {"requests": v["nreq"], "refused": sorted(v["refused"])}
+                                                        for f, v in first_empty.items()},
                          "op_site_outcome": dict(sorted(sites.items())),
                          "undisturbed": {k: v for k, v in sorted(dist.items()) if "/-/" in k}},
     })
     for x in sessions[len(corpus):len(corpus) + 2]:
         rep.sample({"history": x["hid"], "kind": x["kind"], "ops": x["ops"][1:10]})
     rep.assumptions = ["the allocator is an oracle that may refuse any single request (one refusal per operation)",
-                       "pthread rwlocks are not exercised here (single thread)",
+                       "two threads only in `pair` lines (failure-free, one schedule per pair: both operations in flight at their "
+                       "first allocation request, or one after the other when the first one allocates under the write lock)",
                        "sizes of released blocks are not compared (they depend on absorbed shrink refusals)"]
 
     # coverage gate: classes that must have been reached on a tree where the property holds
@@ -1107,6 +1559,22 @@ def run(pid, tier):
                 "kbyski realloc-grow", "kcopyx malloc-entry", "sync malloc-ptab", "sync malloc-ktab", "sync malloc-segment",
                 "sync realloc-first", "sync malloc-node", "sync malloc-entry"]
         missing = [n for n in need if not any(k.startswith(n + " ") for k in sites)]
+        # a reallocation that GROWS a full PDU store (element capacity+1, 2*capacity+1, ...) refused, every kind
+        for name in ("pdu4", "pdu6", "pduk"):
+            if not any(k.startswith("sync store-grow-%s " % name) for k in sites):
+                missing.append("sync store-grow-%s (a store growth realloc failed)" % name)
+        # two-thread pairs
+        for cls in ("padd+padd:same-rec:family-empty", "padd+padd:same-rec:node-absent", "padd+padd:same-rec:node-present",
+                    "padd+padd:same-prefix:node-absent", "padd+padd:same-prefix:node-present", "padd+prm:same-rec:node-absent",
+                    "padd+prm:same-prefix:node-present", "prm+prm:same-rec:rec-present", "kadd+kadd:same-rec:absent",
+                    "kadd+krm:same-rec:present", "krm+krm:same-rec:present"):
+            if not any(k.startswith(cls + " ") for k in pairs):
+                missing.append("two-thread " + cls)
+        # first add into an empty family: every request of that add refused once, both families
+        for fam in (4, 6):
+            v = first_empty[fam]
+            if v["nreq"] < 1 or not set(range(v["nreq"])) <= v["refused"]:
+                missing.append("first add into empty IPv%d family, k = 0..%d (refused: %s)" % (fam, v["nreq"] - 1, sorted(v["refused"])))
         rep.cov["coverage_gate_missing"] = missing
         if missing:
             rep.build_log = "generator did not reach: %s" % missing
@@ -1130,8 +1598,8 @@ def run(pid, tier):
             out, crashed, err, j = replay(exe, sz, ops)
             sig = crash_signature(err)
             rep.violation("crash_%s" % shown, "# C18 / no crash: the implementation aborted (%s) when an allocation request was refused\n"
-                          "# history %s (%s); replies before the abort: %d\n%s\n--- stderr ---\n%s\n" % (
-                              sig, x["hid"], x["kind"], len(out), "\n".join(ops), err[-3000:]),
+                          "# history %s (%s); replies before the abort: %d\n%s%s\n--- stderr ---\n%s\n" % (
+                              sig, x["hid"], x["kind"], len(out), describe_ops(ops), "\n".join(ops), err[-3000:]),
                           signature="C18/" + sig)
             shown += 1
         else:
@@ -1141,9 +1609,9 @@ def run(pid, tier):
             f = [f for f in j.fails if f[0] == clause]
             at = f[0][1] if f else 0
             rep.violation("oracle_%s" % shown, "# C18 / %s fails on the implementation: %s\n# history %s (%s); failing line %d: %s\n"
-                          "# observed: %s\n%s\n" % (clause, f[0][2] if f else msg, x["hid"], x["kind"], at,
-                                                    ops[at] if at < len(ops) else "", out[at] if at < len(out) else "",
-                                                    "\n".join(ops)), signature="C18/" + clause)
+                          "# observed: %s\n%s%s\n" % (clause, f[0][2] if f else msg, x["hid"], x["kind"], at,
+                                                      (ops[at] if at < len(ops) else "")[:200], (out[at] if at < len(out) else "")[:400],
+                                                      describe_ops(ops), "\n".join(ops)), signature="C18/" + clause)
             shown += 1
     if divergences and not bad_sessions:
         x, d, a, b = divergences[0]
@@ -1153,6 +1621,31 @@ def run(pid, tier):
     if not proved and not bad_sessions and not divergences:
         vlib.proof_failure(rep, "\n".join(t for t, ok in rep.obligations.items() if not ok))
     return rep.finish()
+
+
+def swap_pair(line):
+    w = line.split()
+    if "|" not in w:
+        return line
+    bar = w.index("|")
+    return " ".join(w[:3] + w[bar + 1:] + ["|"] + w[3:bar])
+
+
+def swap_codes(reply):
+    w = reply.split(" ")
+    if len(w) >= 2:
+        w[0], w[1] = w[1], w[0]
+    return " ".join(w)
+
+
+def model_ops(x):
+    """the op lines for the model driver: a `pair` whose outcome on the implementation is that of the order
+    'second operation first' is given to the (sequential) model in that order"""
+    ops = list(x["ops"])
+    for i, order in x["pair_order"].items():
+        if order == "BA" and i < len(ops):
+            ops[i] = swap_pair(ops[i])
+    return ops
 
 
 def minimise(exe, sz, ops, pred):
@@ -1167,8 +1660,76 @@ def minimise(exe, sz, ops, pred):
 
 
 
+def describe_ops(ops):
+    """comment lines for a replay file: what the long lines say"""
+    out = []
+    for i, o in enumerate(ops):
+        w = o.split()
+        if w and w[0] == "sync" and len(w) == 4:
+            try:
+                items, sn = decode_items(w[3])
+            except Exception:
+                continue
+            n = collections.Counter(k for k, _, _ in items)
+            caps = ", ".join("%s store holds %s" % (k, v) for k, v in sorted(CAPS.items())) or "not measured"
+            out.append("# line %d: rtr_sync (%s) on an answer with %d IPv4 prefix, %d IPv6 prefix and %d router key PDUs (capacity step: %s); %s"
+                       % (i, "full reload" if w[2] == "1" else "incremental update", n["p4"], n["p6"], n["k"], caps,
+                          "no request refused" if w[1] == "-" else "allocation request number %s (0-based) of the call is refused" % w[1]))
+        elif w and w[0] == "pair":
+            out.append("# line %d: the two operations run in two threads: the first one runs up to its first allocation request, then the "
+                       "second one starts; the first waits there for the second to reach its own first request (or 120 ms), "
+                       "the second lets the first finish" % i)
+    return "\n".join(out) + ("\n" if out else "")
+
+
 def replay_file(path):
-    return vlib.generic_replay(path, build_harness, "allocdriver")
+    """./check --replay: the recorded request lines on the implementation built from the current tree (with the oracle) and
+    on the model driver; exit 1 if the implementation aborts, the oracle fails or the two differ"""
+    ops = []
+    for l in open(path, errors="replace"):
+        l = l.rstrip("\n")
+        if l.startswith("--- "):
+            break
+        if l.strip() and not l.startswith("#"):
+            ops.append(l.split("    => ")[0])
+    if not ops:
+        print(open(path, errors="replace").read())
+        print("(no recorded input in this replay file: it names the proof obligation / correspondence that no longer checks)")
+        return 1
+    vlib.lake_build(["allocdriver"])
+    drv = vlib.driver_path("allocdriver")
+    exe, blog = build_harness()
+    if exe is None or not os.path.exists(drv):
+        print(blog)
+        return 1
+    sz = get_sizes(exe)
+    CAPS.clear()
+    CAPS.update(probe_caps(exe, sz) or {})
+    ops = [setsizes_line(sz)] + [o for o in ops if not o.startswith("setsizes")]
+    print(describe_ops(ops), end="")
+    out, crashed, err, j = replay(exe, sz, ops)
+    x = {"ops": ops, "pair_order": j.pair_order}
+    mo, mrc, merr = vlib.run_lines(drv, model_ops(x), timeout=600)
+    for i, o in enumerate(ops):
+        print("%s\n    impl : %s\n    model: %s" % (o[:300], out[i][:300] if i < len(out) else "<no reply>",
+                                                  mo[i][:300] if i < len(mo) else "<no reply>"))
+    bad = 0
+    if crashed:
+        bad = 1
+        print("implementation aborted after %d of %d replies\n%s" % (len(out), len(ops), err[-3000:]))
+    for clause, idx, msg in j.fails:
+        bad = 1
+        print("C18 / %s FAILS at line %d (%s): %s" % (clause, idx, ops[idx][:80] if idx < len(ops) else "", msg))
+    io = [canon(l) for l in out]
+    for i, order in j.pair_order.items():
+        if order == "BA" and i < len(io):
+            io[i] = swap_codes(io[i])
+    d = vlib.first_divergence(io, [canon(l) for l in mo])
+    if d is not None and not crashed:
+        bad = 1
+        print("DIVERGENCE between implementation and model at line %d" % d)
+    print("replay: %s" % ("FAILS" if bad else "passes on the current tree (oracle holds, implementation and model agree, no abort)"))
+    return bad
 
 if __name__ == "__main__":
     pid = sys.argv[1] if len(sys.argv) > 1 else "C18"
